@@ -7,6 +7,9 @@ Streams
            [first, solutions sorted]                       impl vs Model_C10.run_fcs          (A)
                                                            impl vs Spec_C10.spec_fcs_ok       (B, in Coq)
                                                            + the same oracle in Python (PMS evaluator)
+  fcs_src  the same calls judged against the SOURCE string's own structure (independent parser
+           parse_src) whenever the implementation's parser restructured it: catches a parser / operator
+           table that changes the meaning (e.g. '?? ( a )' collapsed to 'a')   Python PMS oracle + spec_fcs_ok
   direct   restriction objects built directly (negated groups, multi-value / all-mode leaves,
            empty groups, negated all-of on the spine): same comparisons, error branches
   problem  the Problem that find_constraint_satisfaction sets up, recorded by a Problem subclass:
@@ -53,6 +56,44 @@ def show(t):
     if t[0] == "C":
         return ("!" if t[1] else "") + t[2] + "? ( " + " ".join(map(show, t[3])) + " )"
     return (t[1] + " " if t[1] else "") + "( " + " ".join(map(show, t[3])) + " )"
+
+
+def parse_src(text):
+    """REQUIRED_USE string -> source tree, written independently of pkgcore (PMS 8.2 syntax); the
+    string's OWN structure, before any simplification the implementation's parser applies"""
+    toks = text.split()
+    pos = 0
+
+    def items(closing):
+        nonlocal pos
+        out = []
+        while pos < len(toks):
+            t = toks[pos]
+            if t == ")":
+                if not closing:
+                    raise ValueError("unbalanced )")
+                pos += 1
+                return out
+            pos += 1
+            if t in ("||", "^^", "??", "(") or t.endswith("?"):
+                if t != "(":
+                    if pos >= len(toks) or toks[pos] != "(":
+                        raise ValueError("operator without group")
+                    pos += 1
+                kids = items(True)
+                if t == "(":
+                    out.append(("G", "", False, kids))
+                elif t.endswith("?") and t not in ("??",):
+                    f = t[:-1]
+                    out.append(("C", f.startswith("!"), f.lstrip("!"), kids))
+                else:
+                    out.append(("G", t, False, kids))
+            else:
+                out.append(("F", t.startswith("!"), False, (t.lstrip("!"),)))
+        if closing:
+            raise ValueError("unbalanced (")
+        return out
+    return items(False)
 
 
 def collapse1(t, keep_amo=False):
@@ -344,6 +385,7 @@ def main(chk: Check):
     impl = Impl()
 
     fcs_cases, fcs_meta, prob_cases, glue_bad, py_bad = [], [], [], [], []
+    src_cases, src_meta = [], []
 
     def one(stream, ts, restricts, iuse, ft, ff, pt, src=None):
         sols = impl.solve(restricts, iuse, ft, ff, pt)
@@ -358,17 +400,27 @@ def main(chk: Check):
                 "prefer_true": sorted(pt), "ts": ts}
         fcs_meta.append(meta)
         chk.count(stream)
-        why = oracle(ts, iuse, ft, ff, pt, sols)
-        if why:
-            # inside the known class the failure is the known finding only if the implication reading
-            # explains the result completely
-            meta["known"] = False
-            if in_known_class_cond_member(ts):
-                why2 = oracle(ts, iuse, ft, ff, pt, sols, pms=impl_sem)
-                meta["known"] = why2 is None
-                if why2:
-                    why = why2 + " (even under the implication reading, i.e. beyond the known finding)"
-            py_bad.append((why, meta, res))
+        def judge(tree, m):
+            why = oracle(tree, iuse, ft, ff, pt, sols)
+            if why:
+                # inside the known class the failure is the known finding only if the implication reading
+                # explains the result completely
+                m["known"] = False
+                if in_known_class_cond_member(tree):
+                    why2 = oracle(tree, iuse, ft, ff, pt, sols, pms=impl_sem)
+                    m["known"] = why2 is None
+                    if why2:
+                        why = why2 + " (even under the implication reading, i.e. beyond the known finding)"
+                py_bad.append((why, m, res))
+        judge(ts, meta)
+        # end to end: the meaning of the STRING (its own structure), not only of what the parser made of it
+        if src is not None:
+            src_ts = parse_src(src)
+            if src_ts != ts:
+                m2 = dict(meta, ts=src_ts, judged="source string")
+                judge(src_ts, m2)
+                src_cases.append((c_input(src_ts, iuse, ft, ff, pt), r_sols(res)))
+                src_meta.append(m2)
         if not isinstance(sols, Err) and len(sols) >= 2:
             free = [k for k in set(iuse) if k not in ft and k not in ff]
             if len(sols) < 2 ** len(free):
@@ -395,13 +447,17 @@ def main(chk: Check):
         flags = FL[:nfl]
         src = [gen_tree(rng, rng.choice([1, 2, 2, 3, 3]), flags) for _ in range(rng.randint(1, 3))]
         s = " ".join(show(t) for t in src)
-        d = impl_call(lambda: impl.parse(s))
+        eapi = rng.choice(["5", "6", "7", "8"])
+        d = impl_call(lambda: impl.parse(s, eapi))
         if isinstance(d, Err):
-            glue_bad.append({"what": "a valid EAPI 8 REQUIRED_USE string is refused", "input": s, "error": d.kind})
+            glue_bad.append({"what": "a valid EAPI %s REQUIRED_USE string is refused" % eapi, "input": s, "error": d.kind})
             continue
         ts = [impl.walk(r) for r in d]
-        if ts != [collapse1(t) for t in src] and ts != [collapse1(t, True) for t in src]:
-            glue_bad.append({"what": "parsed tree is not the source tree with single-child groups collapsed",
+        if parse_src(s) != src:
+            raise AssertionError("harness: parse_src disagrees with the generator on " + s)
+        if ts != [collapse1(t, True) for t in src]:
+            glue_bad.append({"what": "parsed tree is not the source tree with single-child ||, ^^ and all-of groups "
+                                     "collapsed (a single-child ?? group must stay: it is always satisfied)",
                              "input": s, "parsed": [show(t) for t in ts]})
         used = sorted(set().union(*map(flags_of, ts))) if ts else []
         subsets = [c for n in range(len(used) + 1) for c in itertools.combinations(used, n)]
@@ -455,6 +511,7 @@ def main(chk: Check):
             if pr is not None:
                 prob_cases.append((c_input(ts, iuse, ft, ff, pt), r_prob(pr)))
     chk.count("problem", len(prob_cases))
+    chk.count("fcs_src", len(src_cases))
     if not prob_cases:
         chk.note("required_use.Problem not found as a module attribute: problem stream skipped")
     for k in (0, len(fcs_cases) // 3, 2 * len(fcs_cases) // 3):
@@ -519,6 +576,10 @@ def main(chk: Check):
         if r is not None:
             bad_A = [("fcs/direct", fcs_cases[i], fcs_meta[i]) for i in r[0]]
             bad_B = [(fcs_cases[i], fcs_meta[i]) for i in r[1]]
+        r = chk.coq_eval("fcs_src", IMPORTS, "fcs_input", src_cases,
+                         ["where_ (fun i r => negb (spec_fcs_ok i r)) cases"], shard=200)
+        if r is not None:
+            bad_B += [(src_cases[i], src_meta[i]) for i in r[0]]
         r = chk.coq_eval("problem", IMPORTS, "fcs_input", prob_cases, ["mismatches run_problem cases"], shard=200)
         if r is not None:
             bad_A += [("problem", prob_cases[i], None) for i in r[0]]
@@ -541,6 +602,7 @@ def main(chk: Check):
     for why, meta, res in py_bad:
         ex = {k: meta[k] for k in ("source", "tree", "iuse", "force_true", "force_false", "prefer_true")}
         ex["why"] = why
+        ex["judged"] = meta.get("judged", "parsed tree")
         if meta["known"] and chk.known_finding("cond-member-of-group", ex):
             seen_known = True
             continue
